@@ -237,19 +237,9 @@ theorem gen_loadFilter_prog' (U : Unsupported) (filter : Filter) (p : Prog) (hp 
 theorem gen_seccomp_cls (U : Unsupported) (flags : Nat) (uargs : Option Prog) (w : World) :
     (Gen.seccomp U 1 flags uargs w).1.cls =
       (let r := sysSeccomp 1 flags uargs w
-       if r.2.1 ≠ 0 then ErrClass.errno r.2.1 else if r.1 ≠ 0 then .other else .nil) := by
-  rw [(gen_seccomp_core U 1 flags uargs w).2.2.1]
-  have hk := sysSeccomp_filter flags uargs w
-  generalize sysSeccomp 1 flags uargs w = r at hk
-  cases hk with
-  | declined e he _ => simp [he]
-  | refused t hts _ _ =>
-    have hts1 : flags &&& 1 ≠ 0 := hts
-    simp only [ne_eq, not_true_eq_false, if_false]
-    rw [if_pos ⟨hts1, Nat.succ_ne_zero t⟩]
-    simp
-  | attachedOne p _ _ _ _ _ => simp
-  | attachedAll p _ _ _ _ _ _ => simp
+       if r.2.1 ≠ 0 then ErrClass.errno r.2.1
+       else if flags &&& FLAG_TSYNC ≠ 0 ∧ r.1 ≠ 0 then .other else .nil) :=
+  (gen_seccomp_core U 1 flags uargs w).2.2.1
 
 /-- **Translator tie, loader.**  For every filter, world, schedule and every behaviour `U` of
     untranslated statements: the regenerated `LoadFilter` leaves the same world behind as the
@@ -310,4 +300,5 @@ theorem gen_supported_eq_spec (U : Unsupported) (w : World) :
   rw [gen_supported_char]
   unfold LoaderSpec.supported
   rw [show sysSeccomp SECCOMP_SET_MODE_STRICT 1 none w = sysSeccomp 0 1 none w from rfl, sysSeccomp_probe]
-  cases w.seccompAvailable <;> simp [EINVAL, ENOSYS]
+  have := w.refusal.errno_ne_einval
+  cases w.seccompAvailable <;> simp_all [EINVAL]
